@@ -15,8 +15,6 @@ Proof.
   destruct n; [destruct (mget m k <? d); cbn; [auto|apply IH]|cbn; apply IH].
 Qed.
 
-Definition fstok {A B} (r : rs (A * B)) (d : A) : A := match r with ROk p => fst p | _ => d end.
-
 Lemma row_ok1_id f c r : row_ok1 f -> f c = ROk r -> id1 (fst r) = id1 c.
 Proof. intros H E. specialize (H c). rewrite E in H. apply H. Qed.
 Lemma row_ok2_id f c r : row_ok2 f -> f c = ROk r -> id2 (fst r) = id2 c.
@@ -165,6 +163,103 @@ Section Fold2.
 End Fold2.
 Arguments updl1 {A} key g l c.
 Arguments updl2 {A} key g l c.
+
+(** * a fold of row transitions in which a contract may occur several times: every row goes
+    through its own transitions in the order of the list *)
+Section Seq1.
+  Variable A : Type.
+  Variable key : A -> N.
+  Variable g : A -> c1 -> rs (c1 * list mop).
+  Hypothesis Hg : forall a, row_ok1 (g a).
+
+  Fixpoint seq_ok1 (l : list A) (c : c1) : Prop :=
+    match l with [] => True | a :: t => exists r, g a c = ROk r /\ seq_ok1 t (fst r) end.
+  Definition seql1 (l : list A) (c : c1) : c1 := fold_left (fun c a => fstok (g a c) c) l c.
+  Definition own1 (id : N) (l : list A) : list A := filter (fun a => key a =? id) l.
+
+  Lemma fstok_id1 a c : id1 (fstok (g a c) c) = id1 c.
+  Proof. destruct (g a c) as [r| |] eqn:E; cbn; [apply (row_ok1_id _ _ _ (Hg a) E)|reflexivity|reflexivity]. Qed.
+
+  Lemma fs1_spec l : forall s,
+    Inv s ->
+    (forall a, In a l -> find1 (key a) (cs1 s) <> None) ->
+    (forall id c, find1 id (cs1 s) = Some c -> seq_ok1 (own1 id l) c) ->
+    exists s', foldM (fun s a => with1 (key a) (g a) s) l s = ROk s' /\ Inv s' /\ cs2 s' = cs2 s /\
+               forall id, find1 id (cs1 s') = option_map (fun c => seql1 (own1 id l) c) (find1 id (cs1 s)).
+  Proof.
+    induction l as [|a t IH]; intros s Hs Hk Hpre.
+    - exists s; split; [reflexivity|split; [exact Hs|split; [reflexivity|]]].
+      intros id. destruct (find1 id (cs1 s)); reflexivity.
+    - destruct (find1 (key a) (cs1 s)) as [c|] eqn:Ef; [|exfalso; apply (Hk a (or_introl eq_refl)); exact Ef].
+      pose proof (Hpre _ _ Ef) as Hc. unfold own1 in Hc. cbn [filter] in Hc. rewrite N.eqb_refl in Hc.
+      destruct Hc as (r & Er & Hrest).
+      destruct (with1_total (key a) (g a) s c r Hs (Hg a) Ef Er) as (s1 & E1 & Hs1 & Hc1 & Hc2).
+      pose proof (row_ok1_id _ _ _ (Hg a) Er) as Hid.
+      destruct (find1_in_ids _ _ _ Ef) as [Hin Hck].
+      assert (Hf1 : forall id, find1 id (cs1 s1) = if id =? key a then Some (fst r) else find1 id (cs1 s)).
+      { intros id. rewrite Hc1, find1_repl by (rewrite Hid, Hck; exact Hin). rewrite Hid, Hck. reflexivity. }
+      destruct (IH s1 Hs1) as (s' & E' & Hs' & Hc2' & Hf').
+      { intros a' Ha'. rewrite Hf1. destruct (key a' =? key a); [discriminate|]. apply Hk; right; exact Ha'. }
+      { intros id c' Ef'. rewrite Hf1 in Ef'. destruct (id =? key a) eqn:E.
+        - injection Ef' as <-. assert (id = key a) as -> by lia. exact Hrest.
+        - pose proof (Hpre _ _ Ef') as H. unfold own1 in H. cbn [filter] in H.
+          replace (key a =? id) with false in H by lia. exact H. }
+      exists s'; split; [cbn [foldM]; rewrite E1; exact E'|split; [exact Hs'|split; [congruence|]]].
+      intros id. rewrite Hf', Hf1. unfold own1. cbn [filter]. destruct (id =? key a) eqn:E.
+      + assert (id = key a) as -> by lia. rewrite Ef, N.eqb_refl. cbn [option_map]. f_equal.
+        unfold seql1. cbn [fold_left]. rewrite Er. reflexivity.
+      + replace (key a =? id) with false by lia. reflexivity.
+  Qed.
+End Seq1.
+
+Section Seq2.
+  Variable A : Type.
+  Variable key : A -> N.
+  Variable g : A -> c2 -> rs (c2 * list mop).
+  Hypothesis Hg : forall a, row_ok2 (g a).
+
+  Fixpoint seq_ok2 (l : list A) (c : c2) : Prop :=
+    match l with [] => True | a :: t => exists r, g a c = ROk r /\ seq_ok2 t (fst r) end.
+  Definition seql2 (l : list A) (c : c2) : c2 := fold_left (fun c a => fstok (g a c) c) l c.
+  Definition own2 (id : N) (l : list A) : list A := filter (fun a => key a =? id) l.
+
+  Lemma fs2_spec l : forall s,
+    Inv s ->
+    (forall a, In a l -> find2 (key a) (cs2 s) <> None) ->
+    (forall id c, find2 id (cs2 s) = Some c -> seq_ok2 (own2 id l) c) ->
+    exists s', foldM (fun s a => with2 (key a) (g a) s) l s = ROk s' /\ Inv s' /\ cs1 s' = cs1 s /\
+               forall id, find2 id (cs2 s') = option_map (fun c => seql2 (own2 id l) c) (find2 id (cs2 s)).
+  Proof.
+    induction l as [|a t IH]; intros s Hs Hk Hpre.
+    - exists s; split; [reflexivity|split; [exact Hs|split; [reflexivity|]]].
+      intros id. destruct (find2 id (cs2 s)); reflexivity.
+    - destruct (find2 (key a) (cs2 s)) as [c|] eqn:Ef; [|exfalso; apply (Hk a (or_introl eq_refl)); exact Ef].
+      pose proof (Hpre _ _ Ef) as Hc. unfold own2 in Hc. cbn [filter] in Hc. rewrite N.eqb_refl in Hc.
+      destruct Hc as (r & Er & Hrest).
+      destruct (with2_total (key a) (g a) s c r Hs (Hg a) Ef Er) as (s1 & E1 & Hs1 & Hc1 & Hc2).
+      pose proof (row_ok2_id _ _ _ (Hg a) Er) as Hid.
+      destruct (find2_in_ids _ _ _ Ef) as [Hin Hck].
+      assert (Hf1 : forall id, find2 id (cs2 s1) = if id =? key a then Some (fst r) else find2 id (cs2 s)).
+      { intros id. rewrite Hc1, find2_repl by (rewrite Hid, Hck; exact Hin). rewrite Hid, Hck. reflexivity. }
+      destruct (IH s1 Hs1) as (s' & E' & Hs' & Hc2' & Hf').
+      { intros a' Ha'. rewrite Hf1. destruct (key a' =? key a); [discriminate|]. apply Hk; right; exact Ha'. }
+      { intros id c' Ef'. rewrite Hf1 in Ef'. destruct (id =? key a) eqn:E.
+        - injection Ef' as <-. assert (id = key a) as -> by lia. exact Hrest.
+        - pose proof (Hpre _ _ Ef') as H. unfold own2 in H. cbn [filter] in H.
+          replace (key a =? id) with false in H by lia. exact H. }
+      exists s'; split; [cbn [foldM]; rewrite E1; exact E'|split; [exact Hs'|split; [congruence|]]].
+      intros id. rewrite Hf', Hf1. unfold own2. cbn [filter]. destruct (id =? key a) eqn:E.
+      + assert (id = key a) as -> by lia. rewrite Ef, N.eqb_refl. cbn [option_map]. f_equal.
+        unfold seql2. cbn [fold_left]. rewrite Er. reflexivity.
+      + replace (key a =? id) with false by lia. reflexivity.
+  Qed.
+End Seq2.
+Arguments seq_ok1 {A} g l c.
+Arguments seql1 {A} g l c.
+Arguments own1 {A} key id l.
+Arguments seq_ok2 {A} g l c.
+Arguments seql2 {A} g l c.
+Arguments own2 {A} key id l.
 
 (** * ApplyContracts / RevertContracts as two folds over the changes of the block *)
 Definition A1 (h : N) (s : state) (p : N * pev1) : rs state := with1 (fst p) (row1_of h (snd p)) s.
